@@ -81,6 +81,11 @@ struct TNode {
   int delay() const { return (int)((b / 8) % 6); }
   int delay2() const { return (int)((b / 48) % 4); }
   int times() const { return 1 + (int)(a % 4); }   // Repeat
+  // round 8: bit 17 of `a`: a Dummy leaf calls finish(bit 18) from inside its onStop() (an aborted asynchronous operation reporting back
+  // synchronously); a composite (not the root) calls stop() on the root (bit 18 = 0) or on its parent (1) from its final callback, but only
+  // when that target's own stop() has already begun (re-entrant stop while the tree is being stopped: must be a no-op)
+  bool hookFlag() const { return (a >> 17) & 1; }
+  bool hookArg() const { return (a >> 18) & 1; }
 };
 struct Tree {
   std::vector<TNode> n;
@@ -346,7 +351,7 @@ struct Run {
   std::vector<std::array<int, 2>> ppOpen;   // (resume tick, -) pause pairs whose pause took effect
   // statistics
   bool frozen = false, destroyed = false;   // after the final stop: late control calls are ignored
-  bool twoBlocksInFlight = false;
+  bool twoBlocksInFlight = false, finishInStop = false, stopInFinal = false, nestedStop = false, allowStopInFinal = true;
   bool between = false, pauseBetween = false, anyTimeout = false, blockSeen = false, pausedFinishStored = false,
        resetUnderway = false, sleepAnomaly = false, nonquiescent = false, staleProbe = false;
   int nCtlApplied = 0;
@@ -387,12 +392,20 @@ struct Run {
       case K_SUCC: a = new Probe<SuccAction>(this, n, L); break;
       case K_FAIL: a = new Probe<FailAction>(this, n, L); break;
       case K_FUNC: a = new Probe<FunctionAction>(this, n, L, FunctionAction::FuncWithReason([this, n](Action::Reason &r) { return funcLeaf(n, r); })); break;
-      case K_DUMMY: a = new Probe<DummyAction>(this, n, L); break;
+      case K_DUMMY: { auto p = new Probe<DummyAction>(this, n, L); a = p;
+        if (d.hookFlag()) { bool ok = d.hookArg(); p->setStopCallback([this, p, ok] { finishInStop = true; p->emitFinish(ok, Action::Reason("aborted")); }); }
+        break; }
       default: a = new Probe<SleepAction>(this, n, L, std::chrono::milliseconds(kSleepBase + d.a % 20)); break;
     }
     if (!ok) fail("harness: adding a child to " + nn(n) + " was refused");
     rt[n].act = a;
-    if (!isLeaf(d.kind)) static_cast<AssembleAction *>(a)->setFinalCallback([this, n] { runEv(this, n, EV_L); });
+    if (!isLeaf(d.kind)) {
+      int target = (allowStopInFinal && n != 0 && d.hookFlag()) ? (d.hookArg() ? d.parent : 0) : -1;
+      static_cast<AssembleAction *>(a)->setFinalCallback([this, n, a, target] {
+        runEv(this, n, EV_L);
+        if (target >= 0 && rt[target].act && rt[target].st == ST_STOP) { nestedStop = true; rt[target].act->stop(); }   // only while/after the target's own stop(): a no-op by definition
+      });
+    }
     if (d.tmo) { a->setTimeout(std::chrono::milliseconds(d.tmo)); rt[n].hasTmo = true; rt[n].tmoDur = d.tmo; }
     return a;
   }
@@ -442,6 +455,7 @@ struct Run {
         break; }
       case EV_FT: case EV_FF: {
         int r = kind == EV_FT;
+        if (x.st == ST_STOP || x.st == ST_FIN) fail(nn(n) + " accepted finish(" + (r ? "succ" : "fail") + ") although it is already " + kStName[x.st] + ": a stopped action must not finish, get a result or notify");
         if (x.st == ST_IDLE) { fail(nn(n) + " accepted finish(" + (r ? "succ" : "fail") + ") although it is idle (never started or reset): stale finish"); staleProbe = true; }
         if (leaf) {
           int exp = x.tmoPending ? 0 : (d.kind == K_DUMMY ? x.emitRes : leafResultOf(T, n, x.runs - 1));
@@ -457,6 +471,7 @@ struct Run {
         else { pendingFinishCb = 1; if (!runs.empty()) runs.back().result = r; if (leaf) bump(EC_LEAF_FIN); }
         break; }
       case EV_X:
+        if (x.st != ST_RUN && x.st != ST_PAUSE) fail("onStop() of " + nn(n) + " ran although it is " + kStName[x.st] + " (a nested stop() on an action that is already stopped must be a no-op)");
         x.st = ST_STOP; x.ended = true; x.pend = PD_NONE; x.tmoPending = false; x.toStartLeft = 0; x.armed = false;
         if (n == 0 && !runs.empty()) runs.back().stopped = true;
         break;
@@ -900,6 +915,7 @@ std::string runTree(const Scenario &s, CaseInfo &info) {
   info.cls_if(R.refOrderCompared, "reference_start_order_compared"); info.cls_if(R.refSkipped, "reference_skipped_for_a_run");
   for (auto &c : R.tmoClasses) info.cls(strdupOnce(c));
   info.cls_if(R.timeoutAfterSet, "timeout_fired_after_settimeout");
+  info.cls_if(R.finishInStop, "leaf_called_finish_inside_onStop"); info.cls_if(R.nestedStop, "nested_stop_on_node_being_stopped");
   info.cls_if(R.nCtlApplied >= 4, "ctl_calls>=4"); info.cls_if(R.destroyed, "tree_destroyed_mid_run"); info.cls_if(R.sleepAnomaly, "sleep_anomaly");
   info.nontrivial = T.depth >= 3 && T.hasPar && T.hasSerial && (R.between || rerun);
   return R.err;
@@ -942,6 +958,7 @@ std::string runPauseMeta(const Scenario &s, CaseInfo &info) {
   std::vector<RootRun> ra, rc; std::string err; bool stored = false; int pauses = 0; bool nonq = false;
   for (int pass = 0; pass < 2 && err.empty(); ++pass) {
     Env E; Run R(T, pass ? S : SA, E.loop.get(), E.clk.now);
+    R.allowStopInFinal = false;   // which branch a Parallel cuts is race dependent
     R.buildTree();
     if (R.err.empty()) execute(R, false);
     destroyTree(R, E);
@@ -1061,7 +1078,8 @@ struct TreeGen {
     int64_t mode = g.rng(0, 11);
     if (kind == K_LOOP) mode = g.pick({{12, 0}, {44, 1}, {44, 2}});
     int64_t mask = g.pick({{28, 0xff}, {12, 0}, {60, -1}}); if (mask < 0) mask = g.rng(0, 255);
-    int64_t a = mask | (g.rng(0, 4095) << 8);
+    int64_t a = mask | (g.rng(0, 511) << 8);
+    if (g.chance(composite ? 12 : 22)) a |= ((int64_t)1 << 17) | (g.rng(0, 1) << 18);
     int64_t type = blocky ? g.pick({{30, 0}, {64, 4}, {6, 7}}) : g.pick({{70, 0}, {20, 4}, {10, 7}});
     int64_t b = type + 8 * g.pick({{40, 0}, {25, 1}, {15, 2}, {10, 3}, {5, 4}, {5, 5}}) + 48 * g.rng(0, 3);
     int64_t tmo = 0;
